@@ -2,6 +2,7 @@ package main
 
 import (
 	"go/token"
+	"go/types"
 	"strings"
 
 	"golang.org/x/tools/go/ssa"
@@ -231,9 +232,34 @@ func init() {
 		if s, ok := concStr(args[0]); ok {
 			return strings.ToUpper(s)
 		}
-		panic(inconclusive{"ToUpper on symbolic string"})
+		// ASCII bytes are mapped one by one (a fork per symbolic byte)
+		bs := strBytes(args[0])
+		out := make([]Int, len(bs))
+		for i, b := range bs {
+			switch {
+			case b.X != nil:
+				panic(inconclusive{"ToUpper on formatted text"})
+			case b.isConc():
+				if b.C >= 0x80 {
+					panic(inconclusive{"ToUpper on a non-ASCII string with symbolic bytes"})
+				}
+				out[i] = mkByte(strings.ToUpper(string(rune(b.C)))[0])
+			case e.decide(byteIn(b, 'a', 'z')):
+				out[i] = intBinop(token.SUB, b, mkByte(32)).(Int)
+			case e.decide(byteIn(b, 0x00, 0x7F)):
+				out[i] = b
+			default:
+				panic(inconclusive{"ToUpper on a non-ASCII string with symbolic bytes"})
+			}
+		}
+		return mkStr(out)
 	}
-	stubs["strings.Title"] = stubs["strings.ToUpper"]
+	stubs["strings.Title"] = func(e *Exec, fn *ssa.Function, args []value) value {
+		if s, ok := concStr(args[0]); ok {
+			return strings.Title(s)
+		}
+		panic(inconclusive{"Title on symbolic string"})
+	}
 	nopB := func(e *Exec, fn *ssa.Function, args []value) value { return nil }
 	stubs["(*strings.Builder).Grow"] = nopB
 	stubs["(*strings.Builder).Reset"] = func(e *Exec, fn *ssa.Function, args []value) value {
@@ -244,7 +270,15 @@ func init() {
 	stubs["(*strings.Builder).WriteRune"] = func(e *Exec, fn *ssa.Function, args []value) value {
 		r := args[1].(Int)
 		if !r.isConc() {
-			panic(inconclusive{"WriteRune of symbolic rune"})
+			// utf8.AppendRune on a symbolic rune: fork over the encoding lengths
+			st := (*args[0].(*value)).(structure)
+			buf, _ := st[1].([]value)
+			enc := e.encodeRuneSym(r)
+			for _, b := range enc {
+				buf = append(buf, b)
+			}
+			st[1] = buf
+			return tuple{mkI64(int64(len(enc))), iface{}}
 		}
 		st := (*args[0].(*value)).(structure)
 		buf, _ := st[1].([]value)
@@ -255,4 +289,36 @@ func init() {
 		st[1] = buf
 		return tuple{mkI64(int64(len(s))), iface{}}
 	}
+}
+
+// encodeRuneSym is utf8.AppendRune for a symbolic rune.
+func (e *Exec) encodeRuneSym(r Int) []Int {
+	r32 := r
+	r32.S = true
+	in := func(lo, hi int64) bool {
+		ge := intBinop(token.GEQ, r32, mkInt(32, true, uint64(lo))).(Bool)
+		le := intBinop(token.LEQ, r32, mkInt(32, true, uint64(hi))).(Bool)
+		return e.decide(band(ge, le))
+	}
+	part := func(shift uint64, mask uint64, lead uint64) Int {
+		x := r32
+		if shift > 0 {
+			x = intBinop(token.SHR, x, mkInt(32, true, shift)).(Int)
+		}
+		x = intBinop(token.AND, x, mkInt(32, true, mask)).(Int)
+		x = intBinop(token.OR, x, mkInt(32, true, lead)).(Int)
+		b := e.conv(types.Typ[types.Uint8], types.Typ[types.Int32], x).(Int)
+		return b
+	}
+	switch {
+	case in(0, 0x7F):
+		return []Int{part(0, 0x7F, 0)}
+	case in(0x80, 0x7FF):
+		return []Int{part(6, 0x1F, 0xC0), part(0, 0x3F, 0x80)}
+	case in(0x800, 0xD7FF) || in(0xE000, 0xFFFF):
+		return []Int{part(12, 0x0F, 0xE0), part(6, 0x3F, 0x80), part(0, 0x3F, 0x80)}
+	case in(0x10000, 0x10FFFF):
+		return []Int{part(18, 0x07, 0xF0), part(12, 0x3F, 0x80), part(6, 0x3F, 0x80), part(0, 0x3F, 0x80)}
+	}
+	return []Int{mkByte(0xEF), mkByte(0xBF), mkByte(0xBD)}
 }
